@@ -2089,4 +2089,67 @@ theorem generations_kept (P : Params C D) (cfg : Cfg) (dr : Draws D) (S : Score 
 
 end KeepRun
 
+/-! ## The tournament winner is the first minimum -/
+
+theorem Score.lt_of_lt_of_not_lt {a b c : Score} (h1 : a.lt b = true) (h2 : c.lt b = false) : a.lt c = true := by
+  cases a <;> cases b <;> cases c <;> simp_all [Score.lt]
+  grind
+
+theorem foldl_min_first (l : List PopEntry) : ∀ (b0 : PopEntry),
+    let b := l.foldl (fun best x => if x.score.lt best.score then x else best) b0
+    (b = b0 ∧ ∀ x ∈ l, x.score.lt b0.score = false) ∨
+    (∃ i : Nat, l[i]? = some b ∧ b.score.lt b0.score = true ∧ ∀ (j : Nat) (x : PopEntry), j < i → l[j]? = some x → b.score.lt x.score = true) := by
+  induction l with
+  | nil => intro b0; simp
+  | cons y rest ih =>
+    intro b0
+    simp only [List.foldl_cons]
+    by_cases hy : y.score.lt b0.score = true
+    · simp only [hy, if_true]
+      rcases ih y with ⟨h1, h2⟩ | ⟨i, h1, h2, h3⟩
+      · right
+        refine ⟨0, by simp [h1], by rw [h1]; exact hy, by intro j x hj; omega⟩
+      · right
+        refine ⟨i + 1, by simpa using h1, Score.lt_trans h2 hy, ?_⟩
+        intro j x hj hx
+        cases j with
+        | zero => simp at hx; subst hx; exact h2
+        | succ j' => simp at hx; exact h3 j' x (by omega) hx
+    · have hy' : y.score.lt b0.score = false := by simpa using hy
+      simp only [hy', Bool.false_eq_true, if_false]
+      rcases ih b0 with ⟨h1, h2⟩ | ⟨i, h1, h2, h3⟩
+      · left
+        refine ⟨h1, ?_⟩
+        intro x hx
+        rcases List.mem_cons.mp hx with rfl | hm
+        · exact hy'
+        · exact h2 x hm
+      · right
+        refine ⟨i + 1, by simpa using h1, h2, ?_⟩
+        intro j x hj hx
+        cases j with
+        | zero => simp at hx; subst hx; exact Score.lt_of_lt_of_not_lt h2 hy'
+        | succ j' => simp at hx; exact h3 j' x (by omega) hx
+
+/-- `min(tourn_pop, key=score)` returns the **first** member of minimal score: everything before it is strictly worse,
+    nothing after it is strictly better -/
+theorem minByScore_first {l : List PopEntry} {b : PopEntry} (h : minByScore l = some b) :
+    ∃ i : Nat, l[i]? = some b ∧ (∀ (j : Nat) (x : PopEntry), j < i → l[j]? = some x → b.score.lt x.score = true) ∧
+      ∀ x ∈ l, x.score.lt b.score = false := by
+  have hmin := (minByScore_spec h).2
+  cases l with
+  | nil => simp [minByScore] at h
+  | cons e rest =>
+    simp only [minByScore, Option.some.injEq] at h
+    rcases foldl_min_first rest e with ⟨h1, _⟩ | ⟨i, h1, h2, h3⟩
+    · rw [h] at h1
+      exact ⟨0, by simp [h1], by intro j x hj; omega, hmin⟩
+    · rw [h] at h1 h2 h3
+      refine ⟨i + 1, by simpa using h1, ?_, hmin⟩
+      intro j x hj hx
+      cases j with
+      | zero => simp at hx; subst hx; exact h2
+      | succ j' => simp at hx; exact h3 j' x (by omega) hx
+
+
 end Graphiq.Evo
